@@ -46,8 +46,10 @@ def run(rep, tier, seed):
     trace = os.path.join(work, "trace.ndjson")
     errf = os.path.join(work, "stderr.txt")
     p = vlib.sh("%s -seed %d -n %d -ops %d -conc %d -out %s 2>%s" % (binp, seed, 3000 if thorough else 400, 60 if thorough else 40,
-                                                                       200 if thorough else 30, trace, errf), timeout=3400, check=False)
-    if p.returncode != 0:
+                                                                       200 if thorough else 30, trace, errf), timeout=3400, check=False, hang_ok=True)
+    if p.returncode == 4 and "HANG:" in open(errf).read():
+        vlib.log("driver: " + open(errf).read().strip().splitlines()[-1])     # the hang record is in the trace; judged below
+    elif p.returncode != 0:
         err = open(errf).read()
         i = err.find("panic:")
         if i < 0:
